@@ -845,8 +845,9 @@ def __getstate__(self):
       ('ALL_MASKED',)     if the object is fully masked, so no values are
                           saved.
       ('ANTIMASKED',)     if the antimask has been applied.
-      ('FLOAT', digits, reference)
-                          for any floating-point compression performed.
+      ('FLOAT', digits, reference, dtype)
+                          for any floating-point compression performed; dtype is
+                          the NumPy dtype string of the array, e.g. '<f4'.
       ('BOOL', shape, size)
                           if packbits plus BZ2 compression was performed.
       ('INT', shape, dtype)
@@ -924,7 +925,8 @@ def __getstate__(self):
             _check_pickle_digits(clone)
             digits = clone._pickle_digits[0]
             reference = clone._pickle_reference[0]
-            clone.VALS_ENCODING.append(('FLOAT', digits, reference))
+            clone.VALS_ENCODING.append(('FLOAT', digits, reference,
+                                         clone._values_.dtype.str))
             clone._values_ = _encode_floats(clone._values_,
                                                  rank=len(self._item_),
                                                  digits=digits,
@@ -1042,6 +1044,12 @@ def __setstate__(self, state):
             self._values_ = _decode_floats(self._values_)
             values_is_writable = True
 
+            # Floats of another width (float32) were widened to double for the
+            # encoding, which is exact; after a lossless encoding they are
+            # narrowed back so that the object keeps its data type
+            if len(encoding) > 3 and encoding[1] == 'double':
+                self._values_ = self._values_.astype(encoding[3], copy=False)
+
         elif method == 'ANTIMASKED':
             if antimask is None:
                 raise ValueError('missing antimask for decoding')
@@ -1087,7 +1095,8 @@ def __setstate__(self, state):
         new_deriv.__setstate__(deriv)
 
         if antimask is not None:
-            new_values = np.empty(self._shape_ + new_deriv._item_)
+            new_values = np.empty(self._shape_ + new_deriv._item_,
+                                  dtype=new_deriv._values_.dtype)
             new_values[...] = new_deriv._default_
             new_values[antimask] = new_deriv._values_
             new_deriv._values_ = new_values
